@@ -181,8 +181,11 @@ def plan(tier, seed):
         seeds[-1] = 1000 + seed  # VERIF_SEED rotates one of the hash seeds
     cfgs = []
     of = 4
-    for hs in seeds:
-        for od in ORDERS[tier]:
+    combos = [(hs, od) for hs in seeds for od in ORDERS[tier]]
+    if tier == "thorough":  # all orders under the first seed, the two extreme orders under every other seed
+        combos = [(hs, od) for hs, od in combos if hs == seeds[0] or od in (0, 5)]
+    for hs, od in combos:
+        if True:
             for k in range(of):
                 cfgs.append({"env": {"PYTHONHASHSEED": hs}, "order": od, "n": N[tier], "nv": NV[tier], "ntok": T[tier], "pairs_n": 2 if tier == "quick" else 3,
                              "k": k, "of": of, "label": f"hashseed={hs} order={od} part={k}/{of}"})
@@ -199,13 +202,21 @@ def cases(cfg, g, US, UV):
     for n in range(1, cfg["nv"] + 1):
         for d in UV.trees(n):
             yield "value", d
-    strs = attack_strings(g, cfg["ntok"])
-    head = strs[:40]
+    strs2 = attack_strings(g, min(2, cfg["ntok"]))
     kids = [None, ("AV", (("v", 0),)), ("AF", ())]
-    for a in strs:
-        for b in (head if len(a) > 3 else strs):
+    for a in strs2:  # all pairs of strings of <= 2 tokens
+        for b in strs2:
             for c in kids:
                 yield "attack", ("AP", (("a", a), ("b", b), ("c", c)))
+    if cfg["ntok"] > 2:  # 3-token strings against the 40 shortest strings, on either side
+        s2 = set(strs2)
+        strs3 = [x for x in attack_strings(g, cfg["ntok"]) if x not in s2]
+        head = strs2[:40]
+        for a in strs3:
+            for b in head:
+                for c in kids[:2]:
+                    yield "attack", ("AP", (("a", a), ("b", b), ("c", c)))
+                    yield "attack", ("AP", (("a", b), ("b", a), ("c", c)))
 
 
 def _universe_for(d, US, UV, AP_U):
